@@ -39,8 +39,19 @@ binary reader/writer or translator has no support for them (not judged):
     invocation terminates within a statically bounded number of steps.
 
 Every random decision comes from the ``random.Random`` passed in.  ``avoid`` is
-a set of known-finding keys (DESIGN 3.2); each key switches off exactly the
-construct named in that finding's ``avoid`` text (see AVOID_DOC).
+a set of switches (DESIGN 3.2).  C21 passes its open finding keys directly
+(nan-const-sign-payload-lost-in-text, f32-signalling-nan-const-quieted,
+text-bulk-memory-immediate-unparsable, text-names-not-escaped); C22 maps its
+finding keys to generator flags per target (checks/c22.py FINDINGS):
+no-int-div-by-zero, no-div-s-overflow, no-rem-s-overflow,
+no-trapping-trunc-out-of-range, no-mem-oob, no-call-indirect-{null,oob,sig-mismatch,trap},
+no-unreachable, rounding-nonneg-finite-only, minmax-const-second-operand,
+sqrt-of-abs, trunc-sat-no-nan, float-div-nonzero-divisor, float-cmp-gt-ge-only,
+no-nonfinite-float-const, no-exported-float-global, no-f32-arith,
+no-f32-sqrt-demote, f32-convert-i64-53bit, const-shift-count,
+no-loop-in-dead-code, no-imported-func-in-elem.  Each flag replaces the free
+operand of the named construct by one that is in the safe class by construction
+(see FuncGen.numeric); nothing is filtered on results.
 """
 import struct
 
@@ -49,7 +60,6 @@ VALTYPES = (I32, I64, F32, F64)
 INTS = (I32, I64)
 FLOATS = (F32, F64)
 
-AVOID_DOC = {}  # key -> what the generator does; filled by checks for the evidence
 
 # ---------------------------------------------------------------------------
 # opcode table (written from the spec's binary-format appendix, independent of
@@ -625,6 +635,8 @@ class FuncGen:
         names = OPS_BY_RESULT[t]
         if t == F32 and "no-f32-arith" in av:
             names = [x for x in names if x not in F32_ARITH]
+        if t == F32 and "no-f32-sqrt-demote" in av:
+            names = [x for x in names if x not in ("f32.sqrt", "f32.demote_f64")]
         n = r.choice(names)
         args, _ = SIG[n]
         base = n.split(".")[1]
@@ -656,6 +668,16 @@ class FuncGen:
             half = f32_bits(0.5) if src == F32 else f64_bits(0.5)
             code += [const_instr(src, half)] + self.op(src + ".mul")
             return code + self.op(n)
+        if n in ("f32.convert_i64_s", "f32.convert_i64_u") and "f32-convert-i64-53bit" in av:
+            # operand has at most 53 significant bits: i64 -> double is exact, one rounding to single
+            self.feat("f32_convert_i64.narrow")
+            return self.expr(I64, depth - 1) + [const_instr(I64, 11)] + \
+                self.op("i64.shr_s" if n.endswith("_s") else "i64.shr_u") + self.op(n)
+        if base in ("shl", "shr_s", "shr_u") and "const-shift-count" in av:
+            self.feat("shift.const_count")
+            bits = 32 if t == I32 else 64
+            cnt = r.choice([0, 1, 7, bits - 1, bits, bits + 1, r.randrange(0, 2 * bits), -1])
+            return self.expr(t, depth - 1) + [const_instr(t, cnt)] + self.op(n)
         if t in FLOATS and base in ("ceil", "floor", "trunc", "nearest") and "rounding-nonneg-finite-only" in av:
             # operand = convert_u(i32 & 0xFFFF) * 0.25 : finite, >= 0, quarter steps
             self.feat("rounding.safe_operand")
@@ -677,7 +699,10 @@ class FuncGen:
                 code = self.expr(I32, depth - 1) + [const_instr(I32, 0x7FFFFF)] + self.op("i32.and")
                 code += self.op("f32.convert_i32_s") + [const_instr(F32, f32_bits(-0.5))] + self.op("f32.mul")
                 return code + self.op(n)
-            code = self.expr(I64, depth - 1) + self.op(src + ".convert_i64_s")
+            code = self.expr(I64, depth - 1)
+            if src == F32 and "f32-convert-i64-53bit" in av:
+                code += [const_instr(I64, 11)] + self.op("i64.shr_s")
+            code += self.op(src + ".convert_i64_s")
             c = r.choice([1.0, 0.5, 3.0, -1.5])
             return code + [const_instr(src, f32_bits(c) if src == F32 else f64_bits(c))] + self.op(src + ".mul") + self.op(n)
         if t in FLOATS and base == "div" and "float-div-nonzero-divisor" in av:
@@ -688,9 +713,25 @@ class FuncGen:
         if t == I32 and args[0] in FLOATS and base in ("eq", "ne", "lt", "le") and "float-cmp-gt-ge-only" in av:
             n = args[0] + "." + r.choice(["gt", "ge"])
         code = []
-        for at in args:
-            code += self.expr(at, depth - 1)
+        for k, at in enumerate(args):
+            sub = self.expr(at, depth - 1)
+            if at in FLOATS and (base.startswith("reinterpret") or (base == "copysign" and k == 1)):
+                sub = self.no_nan(at, sub)
+            code += sub
         return code + self.op(n)
+
+    def no_nan(self, t, code):
+        """code leaving a float -> code leaving the same value, or the constant 1.5 when it is a NaN:
+        bit patterns of NaN results are not deterministic in the spec, so they must not reach
+        memory, integer reinterpretation or copysign.  (x >= x) is false exactly for NaN."""
+        if not self.d.exec_profile:
+            return code
+        tmp = self.new_local(t)
+        canon = f32_bits(1.5) if t == F32 else f64_bits(1.5)
+        self.feat("nan_sanitiser")
+        self.spend(5)
+        return code + [["local.tee", tmp], [t + ".const", canon], ["local.get", tmp], ["local.get", tmp], [t + ".ge"],
+                       ["select"]]
 
     def address(self, width, depth):
         """(code leaving an i32 address, static offset) - in bounds unless an edge case is drawn."""
@@ -727,7 +768,10 @@ class FuncGen:
         t = n.split(".")[0]
         w = mem_width(n)
         code, off = self.address(w, depth)
-        code += self.expr(t, depth - 1)
+        val = self.expr(t, depth - 1)
+        if t in FLOATS:
+            val = self.no_nan(t, val)
+        code += val
         self.feat("op." + n)
         self.spend()
         return code + [[n, self.align_for(w), off]]
